@@ -51,7 +51,7 @@ ASSUMPTIONS = [
     "OldNewResult - checked at run time on every execution by an attribute-recording subclass",
     "file differ = UnifiedFileDiffer (the one annet.annet.main installs)",
 ]
-BUDGET = {"quick": 60, "thorough": 900}
+BUDGET = {"quick": 150, "thorough": 900}
 
 PATHS = ["/etc/p", "/etc/q"]
 OUTPUTS = ["", "a", "a\n", "a\nb"]
